@@ -2,7 +2,7 @@
    Gen/BatteryGuard_R.v).  Used by Props/C03.v and Props/C14.v; the battery_consistent_*
    lemmas are exported for other properties (energy ledger). *)
 From Coq Require Import ZArith Reals Lra Lia List Bool String.
-From ACN Require Import Base.Num Base.NumR Gen.Battery_R Gen.BatteryGuard_R.
+From ACN Require Import Base.Num Base.NumR Gen.Battery_R Gen.BatteryGuard_R Gen.Evse_R.
 Set Default Timeout 60.
 Import ListNotations.
 Open Scope R_scope.
@@ -708,11 +708,35 @@ Qed.
 
 (* ---- lift to a station's recorded (pilot, rate) pairs ---- *)
 (* In Simulator.run each period calls network.update_pilots -> EVSE.set_pilot(pilot, V, period)
-   -> EV.charge -> Battery.charge at every station; _store_actual_charging_rates then records
-   ev.current_charging_rate (0 when no EV is attached).  A station's history is therefore a
-   sequence of gaps and sessions; each session charges its own battery through EV_charge. *)
+   (generated BaseEVSE_set_pilot; `true` = the pilot was accepted, otherwise the simulation stops
+   with InvalidRateError) whose effect on an attached EV is EV.charge (generated EV_charge) ->
+   Battery.charge; _store_actual_charging_rates then records ev.current_charging_rate (0 when
+   no EV is attached) next to the pilot.  A station's history is therefore a sequence of gaps
+   and sessions; each session charges its own battery. *)
 Definition ev_recorded_rate (o : cop) (r : cres) : R :=
   EV_charge__current_charging_rate (EV_charge 0 (o_pilot o) (o_V o) (o_T o) (r_rate r)).
+
+(* one period with an EV attached: (recorded pilot, recorded rate), battery state afterwards *)
+Definition session_period (b : battery) (st : bstate) (o : cop) : (R * R) * bstate :=
+  let sp := stateS (BaseEVSE_set_pilot 0 (Some 0%Z) (o_pilot o) (o_V o) (o_T o) true) in
+  match BaseEVSE_set_pilot_effects sp with
+  | [(_, [p; v; t])] =>
+      let r := charge_call b st {| o_pilot := p; o_V := v; o_T := t; o_n1 := o_n1 o; o_n2 := o_n2 o |} in
+      ((BaseEVSE_set_pilot__current_pilot sp,
+        EV_charge__current_charging_rate (EV_charge 0 p v t (r_rate r))), r_state r)
+  | _ => ((BaseEVSE_set_pilot__current_pilot sp, 0), st)
+  end.
+
+(* one period without EV *)
+Definition gap_period (p : R) : R * R :=
+  let sp := stateS (BaseEVSE_set_pilot 0 None p 0 0 true) in
+  (BaseEVSE_set_pilot__current_pilot sp, 0).
+
+Fixpoint session_records (b : battery) (st : bstate) (ops : list cop) : list (R * R) :=
+  match ops with
+  | [] => []
+  | o :: rest => let '(pr, st') := session_period b st o in pr :: session_records b st' rest
+  end.
 
 Inductive segment :=
 | Gap (pilots : list R)
@@ -720,8 +744,8 @@ Inductive segment :=
 
 Definition recorded (sg : segment) : list (R * R) :=
   match sg with
-  | Gap ps => map (fun p => (p, 0)) ps
-  | Session b st0 ops => map (fun '(_, o, r) => (o_pilot o, ev_recorded_rate o r)) (run_calls b st0 ops)
+  | Gap ps => map gap_period ps
+  | Session b st0 ops => session_records b st0 ops
   end.
 
 Definition segment_ok (sg : segment) : Prop :=
@@ -732,24 +756,27 @@ Definition segment_ok (sg : segment) : Prop :=
       /\ Forall (fun o => 0 <= o_pilot o /\ 0 < o_V o /\ 0 < o_T o) ops
   end.
 
+Lemma session_period_eq b st o :
+  session_period b st o =
+  ((o_pilot o, ev_recorded_rate o (charge_call b st o)), r_state (charge_call b st o)).
+Proof. destruct o; reflexivity. Qed.
+
 Lemma c03_station timeline : Forall segment_ok timeline ->
   Forall (fun pr => 0 <= snd pr <= fst pr) (flat_map recorded timeline).
 Proof.
   induction 1 as [|sg rest Hsg _ IH]; [constructor|].
   cbn [flat_map]. apply Forall_app. split; [|exact IH]. clear IH.
-  destruct sg as [ps|b st0 ops]; cbn in *.
-  - induction Hsg; cbn; constructor; auto. cbn. lra.
+  destruct sg as [ps|b st0 ops]; cbn [recorded segment_ok] in *.
+  - induction Hsg; cbn [map]; constructor; auto. cbn. lra.
   - destruct Hsg as (Hb & Hm & Hst & Hops).
-    assert (Hp : Forall (fun o => 0 <= o_pilot o) ops).
-    { eapply Forall_impl; [|exact Hops]. cbn. tauto. }
     revert st0 Hst. induction Hops as [|o ops' (Ho1 & Ho2 & Ho3) _ IH]; intros st0 Hst; [constructor|].
-    cbn [run_calls map]. inversion Hp as [|? ? Hp1 Hp2]; subst.
+    cbn [session_records]. rewrite session_period_eq.
     destruct (c03_call b st0 o Hb Hst Ho1) as (Hok & Hnone & _).
     specialize (Hnone Ho2 Ho3 Hm).
     constructor.
     + unfold call_ok in Hok. rewrite Hnone in Hok. destruct Hok as ((Hr & _) & _).
       unfold ev_recorded_rate, EV_charge. cbn. exact Hr.
-    + apply IH; [exact Hp2|]. apply (call_ok_invariant _ _ _ _ Hok Hst).
+    + apply IH. apply (call_ok_invariant _ _ _ _ Hok Hst).
 Qed.
 
 (* ------------------------------------------------------------------------------------------ *)
